@@ -28,7 +28,10 @@ import (
 	exocoreapp "github.com/ExocoreNetwork/exocore/app"
 	keytypes "github.com/ExocoreNetwork/exocore/types/keys"
 	avstypes "github.com/ExocoreNetwork/exocore/x/avs/types"
+	assetskeeper "github.com/ExocoreNetwork/exocore/x/assets/keeper"
+	assetstypes "github.com/ExocoreNetwork/exocore/x/assets/types"
 	delegationtypes "github.com/ExocoreNetwork/exocore/x/delegation/types"
+	oracletypes "github.com/ExocoreNetwork/exocore/x/oracle/types"
 	dogfoodtypes "github.com/ExocoreNetwork/exocore/x/dogfood/types"
 	operatorkeeper "github.com/ExocoreNetwork/exocore/x/operator/keeper"
 	operatortypes "github.com/ExocoreNetwork/exocore/x/operator/types"
@@ -148,6 +151,17 @@ func c07NewDrv(w *CaseWriter) *c07Drv {
 		dg.Params.EpochIdentifier = c07EpochID
 		dg.Params.EpochsUntilUnbonded = c07InitUnb
 		gs[dogfoodtypes.ModuleName] = app.AppCodec().MustMarshalJSON(&dg)
+		// a token the oracle knows but has never priced (its staking asset is registered below)
+		var og oracletypes.GenesisState
+		app.AppCodec().MustUnmarshalJSON(gs[oracletypes.ModuleName], &og)
+		og.Params.Tokens = append(og.Params.Tokens, &oracletypes.Token{
+			Name: "DAI", ChainID: 1, ContractAddress: "0x", Decimal: 0, Active: true,
+			AssetID: "0x6b175474e89094c44da98b954eedeac495271d0f_0x65",
+		})
+		og.Params.TokenFeeders = append(og.Params.TokenFeeders, &oracletypes.TokenFeeder{
+			TokenID: uint64(len(og.Params.Tokens) - 1), RuleID: 1, StartRoundID: 1, StartBaseBlock: 1, Interval: 10,
+		})
+		gs[oracletypes.ModuleName] = app.AppCodec().MustMarshalJSON(&og)
 	}})
 	d := &c07Drv{env: env, app: env.App, w: w, slashUsed: map[[2]int64]bool{}}
 	d.chainID = avstypes.ChainIDWithoutRevision(env.ChainID)
@@ -160,10 +174,61 @@ func c07NewDrv(w *CaseWriter) *c07Drv {
 		d.opIdx[string(o.Bytes())] = int64(i)
 	}
 	d.msg = operatorkeeper.NewMsgServerImpl(d.app.OperatorKeeper)
+	d.foreignPools()
 	return d
 }
 
+// foreignPools gives the operators pools of staking assets the dogfood AVS does NOT accept: USDC (priced by the
+// oracle) delegated to operators 0, 1, 2 and DAI (known to the oracle, never priced) delegated to operators 2, 3.
+// The registry must stay usable for slashing / jailing whatever else an operator holds.
+func (d *c07Drv) foreignPools() {
+	ctx := d.ctx()
+	staker := common.BytesToAddress(seedBytes("c07foreignstaker", 0)[:20])
+	type fa struct {
+		name, addr string
+		ops        []int
+	}
+	nonce := uint64(1 << 40)
+	for _, a := range []fa{
+		{"USDC", "0xa0b86991c6218b36c1d19d4a2e9eb0ce3606eb48", []int{0, 1, 2}},
+		{"DAI", "0x6b175474e89094c44da98b954eedeac495271d0f", []int{2, 3}},
+	} {
+		addr := common.HexToAddress(a.addr)
+		if err := d.app.AssetsKeeper.SetStakingAssetInfo(ctx, &assetstypes.StakingAssetInfo{
+			AssetBasicInfo: assetstypes.AssetInfo{Name: a.name, Symbol: a.name, Address: addr.String(), Decimals: 6,
+				LayerZeroChainID: d.env.LzID, MetaInfo: a.name},
+			StakingTotalAmount: sdkmath.ZeroInt(),
+		}); err != nil {
+			panic(err)
+		}
+		for _, o := range a.ops {
+			amount := sdkmath.NewIntWithDecimal(50, 6)
+			if err := d.app.AssetsKeeper.PerformDepositOrWithdraw(ctx, &assetskeeper.DepositWithdrawParams{
+				ClientChainLzID: d.env.LzID, Action: assetstypes.DepositLST, StakerAddress: staker.Bytes(),
+				AssetsAddress: addr.Bytes(), OpAmount: amount,
+			}); err != nil {
+				panic(err)
+			}
+			nonce++
+			if err := d.app.DelegationKeeper.DelegateTo(ctx, &delegationtypes.DelegationOrUndelegationParams{
+				ClientChainID: d.env.LzID, LzNonce: nonce, AssetsAddress: addr.Bytes(), StakerAddress: staker.Bytes(),
+				OperatorAddress: d.env.Operators[o], OpAmount: amount,
+			}); err != nil {
+				panic(err)
+			}
+		}
+	}
+}
+
 func (d *c07Drv) ctx() sdk.Context { return d.env.Ctx }
+
+// c07Amount: undelegations move 1 unit unless the op asks for more (op.N units)
+func c07Amount(n int64) sdkmath.Int {
+	if n > 0 {
+		return sdkmath.NewInt(n)
+	}
+	return sdkmath.NewInt(1)
+}
 
 // epochID is the epoch identifier the dogfood module currently uses.
 func (d *c07Drv) epochID() string { return d.app.StakingKeeper.GetDogfoodParams(d.ctx()).EpochIdentifier }
@@ -390,10 +455,16 @@ func (d *c07Drv) observe(extraKeys map[int64]bool) c07Obs {
 	pks = c07SortInts(pks)
 	for _, i := range pks {
 		k := d.keys[i]
-		_, found := d.app.OperatorKeeper.ValidatorByConsAddrForChainID(ctx, k.ToConsAddr(), d.chainID)
+		// the SDK-facing staking interface x/slashing and x/evidence use (dogfood impl_sdk.go), which goes through
+		// the operator keeper's ValidatorByConsAddrForChainID incl. its USD value computation
+		found := d.app.StakingKeeper.ValidatorByConsAddr(ctx, k.ToConsAddr()) != nil
+		_, foundK := d.app.OperatorKeeper.ValidatorByConsAddrForChainID(ctx, k.ToConsAddr(), d.chainID)
 		found2, _ := d.app.OperatorKeeper.GetOperatorAddressForChainIDAndConsAddr(ctx, d.chainID, k.ToConsAddr())
 		if found && !found2 {
-			panic("ValidatorByConsAddrForChainID found without reverse lookup")
+			panic("ValidatorByConsAddr found without reverse lookup")
+		}
+		if found != foundK {
+			panic("dogfood ValidatorByConsAddr and operator ValidatorByConsAddrForChainID disagree")
 		}
 		o.Probe = append(o.Probe, c07ProbeKV{i, found})
 		o.JProbe = append(o.JProbe, c07ProbeKV{i, d.app.StakingKeeper.IsValidatorJailed(ctx, k.ToConsAddr())})
@@ -487,7 +558,7 @@ func (d *c07Drv) exec(op *c07Op) string {
 			return d.app.DelegationKeeper.UndelegateFrom(ctx, &delegationtypes.DelegationOrUndelegationParams{
 				ClientChainID: d.env.LzID, AssetsAddress: common.HexToAddress(d.env.AssetAddr).Bytes(),
 				OperatorAddress: opAddr, StakerAddress: common.BytesToAddress(opAddr.Bytes()).Bytes(),
-				OpAmount: sdkmath.NewInt(1), LzNonce: d.nonce, TxHash: txHash,
+				OpAmount: c07Amount(op.N), LzNonce: d.nonce, TxHash: txHash,
 			})
 		})
 	case "setunb":
@@ -525,6 +596,24 @@ func (d *c07Drv) exec(op *c07Op) string {
 			_, err := d.app.StakingKeeper.UpdateParams(sdk.WrapSDKContext(ctx), &dogfoodtypes.MsgUpdateParams{
 				Authority: authtypes.NewModuleAddress(govtypes.ModuleName).String(), Params: p})
 			return err
+		})
+	case "topup":
+		// the operator's own staker deposits op.K units of the accepted asset and delegates them to the operator:
+		// no effect on the key registry or the queues (AfterDelegation is a no-op): for the model SetUnb unchanged
+		op.N = int64(d.app.StakingKeeper.GetDogfoodParams(d.ctx()).EpochsUntilUnbonded)
+		d.nonce++
+		opAddr := d.env.Operators[op.O]
+		return d.tx(func(ctx sdk.Context) error {
+			if err := d.app.AssetsKeeper.PerformDepositOrWithdraw(ctx, &assetskeeper.DepositWithdrawParams{
+				ClientChainLzID: d.env.LzID, Action: assetstypes.DepositLST, StakerAddress: common.BytesToAddress(opAddr.Bytes()).Bytes(),
+				AssetsAddress: common.HexToAddress(d.env.AssetAddr).Bytes(), OpAmount: sdkmath.NewInt(op.K),
+			}); err != nil {
+				return err
+			}
+			return d.app.DelegationKeeper.DelegateTo(ctx, &delegationtypes.DelegationOrUndelegationParams{
+				ClientChainID: d.env.LzID, LzNonce: d.nonce, AssetsAddress: common.HexToAddress(d.env.AssetAddr).Bytes(),
+				StakerAddress: common.BytesToAddress(opAddr.Bytes()).Bytes(), OperatorAddress: opAddr, OpAmount: sdkmath.NewInt(op.K),
+			})
 		})
 	case "setmaxvals":
 		// MaxValidators only influences the selection by vote power, which is an input (sel) of the model:
@@ -766,7 +855,7 @@ func (op c07Op) coq() string {
 		return cApp("OptOut", cZ(op.O))
 	case "undelegate":
 		return cApp("Undelegate", cZ(op.O), cZ(op.R))
-	case "setunb", "setmaxvals":
+	case "setunb", "setmaxvals", "topup":
 		return cApp("SetUnb", cZ(op.N))
 	case "jail":
 		return cApp("Jail", cZ(op.K))
@@ -1049,6 +1138,38 @@ func (d *c07Drv) directed(suite string, rng *rand.Rand) {
 	b.finish(suite)
 }
 
+// D8: an operator below the AVS minimum self delegation, opted out and unbonding, jailed, with foreign-asset pools: its
+// address must stay resolvable through ValidatorByConsAddr and reachable by slash / jail; restored afterwards.
+func (d *c07Drv) directedLowSelf(suite string, rng *rand.Rand) {
+	b := d.begin("dir-low-self-delegation")
+	b.do(c07Op{Kind: "setunb", N: 2})
+	v, k := int64(-1), int64(0)
+	for _, p := range b.last.KOp {
+		if c07In(p[0], b.last.Opted) && c07In(p[1], b.last.Vs) && !c07In(p[0], b.last.Jailed) {
+			v, k = p[0], p[1]
+		}
+	}
+	if v >= 0 {
+		low := int64(970_000_000) // leaves about 30..60 USD of self delegation, the AVS minimum is 100
+		b.do(c07Op{Kind: "undelegate", O: v, N: low})
+		b.do(c07Op{Kind: "slash", K: k})
+		b.block(61)
+		b.do(c07Op{Kind: "jail", K: k})
+		b.do(c07Op{Kind: "unjail", K: k})
+		b.do(c07Op{Kind: "optout", O: v})
+		b.do(c07Op{Kind: "jail", K: k})
+		b.do(c07Op{Kind: "slash", K: k})
+		b.block(61)
+		b.do(c07Op{Kind: "slash", K: k})
+		b.do(c07Op{Kind: "unjail", K: k})
+		b.block(61)
+		b.do(c07Op{Kind: "topup", O: v, K: low})
+		b.block(61)
+		b.block(61)
+	}
+	b.finish(suite)
+}
+
 func (b *c07Builder) nothingScheduled() bool {
 	o := b.last
 	return len(o.QOpt) == 0 && len(o.QPrune) == 0 && len(o.QUnd) == 0 && len(o.POpt) == 0 && len(o.PPrune) == 0 && len(o.PUnd) == 0
@@ -1157,6 +1278,7 @@ func c07Run(a *Args, suite string) error {
 	rng := rand.New(rand.NewSource(a.Seed))
 	d := c07NewDrv(w)
 	d.directed(suite, rng)
+	d.directedLowSelf(suite, rng)
 	mix := c07Mix{optinkey: 22, optin: 5, setkey: 24, setkeyraw: 10, optout: 18, undelegate: 16, setunb: 4, jail: 7, unjail: 9, slash: 8, clock: 2, blockEvery: 4, pTick: 40, pGap: 6}
 	if suite == "c16" {
 		mix = c07Mix{optinkey: 14, optin: 3, setkey: 13, setkeyraw: 4, optout: 14, undelegate: 40, setunb: 10, jail: 3, unjail: 4, slash: 3, clock: 4, blockEvery: 4, pTick: 40, pGap: 10}
